@@ -549,12 +549,26 @@ func builtinIntrinsics() map[string]intrinsic {
 	I["(*sync.Pool).Get"] = func(m *Machine, caller *frame, a []Value) Value {
 		st := (*a[0].(*Value)).(Struct)
 		newf := st[len(st)-1]
+		if m.params["poolreuse"] == 1 { // a Get hands back the most recently Put object, as the real per-P cache does
+			key := a[0].(*Value)
+			if l := m.pools[key]; len(l) > 0 {
+				v := l[len(l)-1]
+				m.pools[key] = l[:len(l)-1]
+				return v
+			}
+		}
 		if isNilFunc(newf) {
 			return Iface{}
 		}
 		return m.call(caller, newf, nil)
 	}
-	I["(*sync.Pool).Put"] = nop
+	I["(*sync.Pool).Put"] = func(m *Machine, _ *frame, a []Value) Value {
+		if m.params["poolreuse"] == 1 {
+			key := a[0].(*Value)
+			m.pools[key] = append(m.pools[key], a[1])
+		}
+		return nil
+	}
 
 	// sync/atomic plain functions
 	for _, ty := range []string{"Int32", "Int64", "Uint32", "Uint64", "Uintptr"} {
